@@ -1,9 +1,10 @@
 CONSTANTS
   Variant = "ok"
   MaxMoves = 1
-  CfgSel = {"workday"}
-SPECIFICATION MSpec
+  CfgSel = {"workday", "oneshot"}
+SPECIFICATION CSpec
 CONSTRAINT Bound
 VIEW View
 INVARIANTS TypeOK TargetIsEarliest DelayCoversDistance OncePerInstant EarlyWakeDoesNotRefire OneShotOnce DisabledNeverFires
+POSTCONDITION ActStats
 CHECK_DEADLOCK FALSE
